@@ -60,6 +60,45 @@ def run(tier):
             ck.violation("parentheses-change-result" if outs[0][0].startswith("ok") else "valid-rejected:" + outs[0][0].split(" ")[0],
                          "the same program with x, (x) and ((x)) gives %s" % (outs,), dict(pcases)["pp%d.1" % ki])
     ck.log("parenthesisation: %d kinds of values x 3 spellings, %d problems" % (len(kinds), pbad))
+    # precedence and associativity: the unparenthesised spelling means the documented grouping (unary operators
+    # bind tighter than `as`, `as` chains to the left, * / % chain to the left, + - chain to the left over them),
+    # on boundary values where the other grouping gives another result; expected values from the interpreter
+    from .. import gen_prog as GPx
+    V = lambda n: ("var", n)
+    shapes = []
+    for t, wide in (("i8", "i16"), ("i16", "i32"), ("i32", "i64"), ("i64", "i128"), ("i8", "i64")):
+        lo = GPx.tmin(t)
+        for val in (lo, lo + 1, -1, 5, GPx.tmax(t)):
+            shapes.append((t, val, wide, "-a as %s" % wide, ("cast", wide, ("un", "-", V("a")))))
+            shapes.append((t, val, t, "a as %s as %s" % (wide, t), ("cast", t, ("cast", wide, V("a")))))
+    for t in ("i32", "u8", "i64", "u16"):
+        for a_, b_, c_ in ((100, 7, 3), (GPx.tmax(t), 2, 2), (17, 5, 4), (1, 2, 3)):
+            for txt, tree in (("a - b - c", ("bin", "-", ("bin", "-", V("a"), V("b")), V("c"))), ("a / b * c", ("bin", "*", ("bin", "/", V("a"), V("b")), V("c"))),
+                              ("a * b / c", ("bin", "/", ("bin", "*", V("a"), V("b")), V("c"))), ("a % b * c", ("bin", "*", ("bin", "%", V("a"), V("b")), V("c"))),
+                              ("a - b * c", ("bin", "-", V("a"), ("bin", "*", V("b"), V("c")))), ("a * b - c", ("bin", "-", ("bin", "*", V("a"), V("b")), V("c"))),
+                              ("a / b / c", ("bin", "/", ("bin", "/", V("a"), V("b")), V("c")))):
+                shapes.append((t, (a_, b_, c_), t, txt, tree))
+    xcases, xitems = [], []
+    for xi, (t, val, rt, txt, tree) in enumerate(shapes):
+        vals = val if isinstance(val, tuple) else (val,)
+        names = ["a", "b", "c"][:len(vals)]
+        decl = "".join("\tvar %s: %s = %s;\n" % (n_, t, ("%d" % v_) if v_ >= 0 else "-%d" % -v_) for n_, v_ in zip(names, vals))
+        xcases.append(("x%d" % xi, "fn main() -> u8\n{\n%s\tvar r: %s = %s;\n\tprint!(r, \"\\n\");\n\treturn: 0\n}\n" % (decl, rt, txt)))
+        sdecl = " ".join("(decl %s %s (lit %s %d))" % (n_, t, t, v_) for n_, v_ in zip(names, vals))
+        xitems.append(("exec", "x%d" % xi, "(prog (structs) (consts) (funcs (fn main () u8 (%s (decl r %s %s) (print (var r) (str 0a))) (lit u8 0))))" % (sdecl, rt, GPx.sx_expr(tree))))
+    ximpl = C.run_harness("exec", xcases, ck.work + "/precedence", timeout=600)
+    xmodel = C.run_model(xitems, ck.work + "/precedence")
+    xbad = 0; xn = 0
+    for (cid, src), (t, val, rt, txt, tree) in zip(xcases, shapes):
+        f = ximpl.get(cid, ["missing"]); m = xmodel.get(cid, "")
+        if m in ("UB", "FUEL") or not m.startswith("exit="): continue          # (overflowing division and the like)
+        if not f[0].startswith("ok"):
+            xbad += 1; ck.violation("valid-rejected:" + f[0].split(" ")[0], "`%s` on %s operands is not accepted: %s" % (txt, t, f[0][:100]), src); continue
+        xn += 1
+        want = m.split(" out=", 1)[1]; got = f[1].split(" out=", 1)[1].split(" stderr=")[0] if " out=" in f[1] else "?"
+        if want != got:
+            xbad += 1; ck.violation("wrong-grouping", "`%s` with %s = %s prints %s, the documented grouping gives %s" % (txt, t, val, got, want), src)
+    ck.log("precedence and associativity: %d expressions compared, %d problems" % (xn, xbad))
     from . import c12
     c12.check_leaks(ck)
     from .. import cfgstream
